@@ -6,7 +6,10 @@ CHECK = {
     "srcs": ["src/diagnostics/CheckupReliability.cpp", "src/diagnostics/Diagnostic.cpp",
              "src/diagnostics/DiagnosticReport.cpp", "src/diagnostics/DiagnosticStatus.cpp",
              # neighbouring printable types interleaved with the evaluations (shared hidden state)
-             "src/geodesy/WGS84Coordinates.cpp", "src/geodesy/GeodeticCoordinates.cpp"],
+             "src/geodesy/WGS84Coordinates.cpp", "src/geodesy/GeodeticCoordinates.cpp",
+             "src/geometry/Twist2D.cpp", "src/geometry/Twist3D.cpp", "src/geometry/Pose2D.cpp", "src/geometry/Position2D.cpp",
+             "src/geometry/PoseAndTwist2D.cpp", "src/geometry/Pose3D.cpp", "src/geometry/PoseAndTwist3D.cpp",
+             "src/geometry/Ellipse.cpp", "src/geometry/Position3D.cpp", "src/transform/SmartRotation3D.cpp"],
     "flavours": ["asan"],
     "quick": {"shards": 8, "timeout": 600},
     "thorough": {"shards": 16, "timeout": 3600},
@@ -28,6 +31,11 @@ CHECK = {
         "seq_near_duplicate_consecutive", "seq_same_value_again", "seq_signed_zero_flip", "seq_adjacent_value",
         "status_lists_random", "status_lists_length_20",
         "interleaved_neighbour_printing", "interleaved_wgs84_print", "eval_after_neighbour_printing_needing_7plus_digits",
+        "interleaved_library_geometry_eigen_print", "eval_after_library_printer",
+        "locale_switched_during_history", "locale_decimal_comma", "locale_decimal_comma_grouping",
+        "locale_classic_during_history", "locale_switched_before_first_evaluation_of_process",
+        "locale_switched_before_construction", "locale_switched_between_steps",
+        "locale_switched_between_evaluate_and_getReport",
         "report_append", "append_duplicate_keys", "append_chain", "append_20_or_more_diagnostics",
         "append_rhs_lvalue", "append_rhs_const_lvalue", "append_rhs_temporary", "append_rhs_moved", "append_rhs_checkup_report",
         "append_left_empty", "append_left_diagnostics_no_info", "append_left_info_no_diagnostics",
@@ -37,6 +45,7 @@ CHECK = {
         "verdict.exact_regime", "verdict.in_band_consistent",
         "status.returned_eq_stored", "report.one_diagnostic_one_info",
         "message.names_quantity", "message.matching_verdict", "info.printed_value",
+        "info.after_library_printer", "info.fresh_stream_under_global_locale",
         "timeout.stale_named_no_verdict",
         "worse.pairs_exhaustive", "worse.triples_exhaustive", "worse.commutative", "worse.associative",
         "worse.idempotent", "worseStatus.lists_le4_exhaustive", "allOK.lists_le4_exhaustive",
@@ -62,7 +71,12 @@ CHECK = {
             "self-assigned between appends with the source overwritten and destroyed or kept and re-checked; 1 chain in 100 starts "
             "with 2^8+k / 2^16+k repeated appends of an info-only report); with probability 0.12 an evaluation is preceded by calls that print other library types "
             "(WGS84/geodetic coordinates, statuses, diagnostics, optionals, strings, wide doubles) through setReportInfo / "
-            "toStringInfoValue / a local stream on the same thread.  (target, epsilon) are either dyadic (a*2^-k, b*2^-k, |a|,b <= 2^20, k "
+            "toStringInfoValue / a local stream on the same thread (also Twist2D/3D, Pose2D/3D, PoseAndTwist2D/3D, Position2D, Eigen "
+            "matrices, bool through the library's toStringInfoValue / setReportInfo; the next info value is then judged under the "
+            "kind info_value_after_library_printer); every case with index <= 256 and 6% of the other sequences switch "
+            "std::locale::global among classic, decimal comma and decimal comma with '.' grouping by 3 before construction, "
+            "between steps and between evaluate and getReport (expected info = a fresh std::ostringstream at the moment of "
+            "evaluate; classic restored at the end of the case).  (target, epsilon) are either dyadic (a*2^-k, b*2^-k, |a|,b <= 2^20, k "
             "from moderate, subnormal and huge ranges, epsilon 0 in 20%) so that the thresholds are exactly representable, or "
             "generic (log-uniform magnitudes 1e-6..1e6, subnormal, near the type's maximum: the unchanged code stays correct for every "
             "finite operand up to +-max, target+-epsilon may overflow to +-inf; reliability thresholds and values log-uniform over "
@@ -113,6 +127,14 @@ CHECK = {
         "after timeout() only: one diagnostic, one info entry, status STALE, message names the quantity and carries no "
         "OK/low/high verdict (the info value after a timeout is C17's subject)",
         "on duplicate info keys either operand's value is accepted",
+        "locale cases: the reference for the info value is what a fresh std::ostringstream constructed just before evaluate() "
+        "prints under the global locale of that moment (printf formatting in all other cases); the time types of the library "
+        "have no printer and are not part of the interleaved calls",
+        "caller in a directed rounding mode (1 case in 16): when target-epsilon or target+epsilon lies beyond the finite range "
+        "of the scalar type, IEEE arithmetic saturates the library's threshold to -+max instead of -+inf, so a value of exactly "
+        "-+max is accepted with either verdict there (counted under skipped_as_ambiguous as "
+        "verdict:threshold_overflow_under_directed_rounding); under round-to-nearest the overflow to inf gives the right verdict "
+        "and is demanded",
         "g++ 12 ASan+UBSan runtime; asserts live (no -DNDEBUG)"],
 }
 
